@@ -815,3 +815,150 @@ def _derived_from_loopvar(facts, name, var):
         if isinstance(v, ast.Name) and v.id == var:
             return True
     return False
+
+
+# ---------------------------------------------------------------------- R29 no shared field descriptors
+
+def _fresh(ctx, v):
+    """Is the expression a freshly created object (literal / dict(...) / deep copy)?"""
+    if isinstance(v, (ast.Dict, ast.List, ast.Set, ast.Tuple, ast.Constant, ast.ListComp, ast.DictComp, ast.JoinedStr)):
+        return True
+    if isinstance(v, ast.Call):
+        en = ctx.res.external_name(v)
+        if en in ('copy.deepcopy', 'builtins.dict', 'json.loads'):
+            return True
+        if isinstance(v.func, ast.Name) and v.func.id == 'dict':
+            return True
+    return False
+
+
+def _reaching_assign(node, name):
+    """Value of the closest assignment to `name` that precedes `node` in its own or an enclosing block (None if there is a
+    loop / branch boundary that makes it ambiguous: then all assignments are considered)."""
+    cur = node
+    while getattr(cur, '_parent', None) is not None:
+        parent = cur._parent
+        for fld in ('body', 'orelse', 'finalbody'):
+            blk = getattr(parent, fld, None)
+            if isinstance(blk, list) and cur in blk:
+                for st in reversed(blk[:blk.index(cur)]):
+                    if isinstance(st, ast.Assign) and any(isinstance(t, ast.Name) and t.id == name for t in st.targets):
+                        return [st.value]
+                    if any(isinstance(x, ast.Assign) and any(isinstance(t, ast.Name) and t.id == name for t in x.targets)
+                           for x in ast.walk(st)):
+                        return None      # assigned inside a nested statement: ambiguous
+        if isinstance(parent, (ast.FunctionDef, ast.AsyncFunctionDef, ast.Lambda)):
+            return None
+        cur = parent
+    return None
+
+
+def r29_no_shared_fields(ctx, funcs, rule='R29'):
+    """funcs: FuncInfos of package phases (and their helpers).  A value put into a schema `fields` list is either taken from
+    the same package's descriptor (moved / kept) or freshly created / deep-copied."""
+    run = ctx.run
+    run.rule(rule, 'NO-SHARED-FIELD-OBJECTS: every object a step appends to a resource\'s schema fields is created (or deep-copied) for '
+                   'that resource, or is taken from the descriptor itself; appending one user-supplied / closure object to several '
+                   'resources makes their field descriptors the same object, and a later step that edits the field of one selected '
+                   'resource in place (set_type, rename_fields, dumpers) silently edits the others too')
+    n = 0
+    # lists returned by a helper and then put into a fields list by the caller are fields lists inside the helper too
+    returned_fl = {}
+    for f in funcs:
+        facts = Facts(f, include_nested=False)
+        for nd in own_nodes(f.node):
+            v = None
+            if isinstance(nd, ast.Call) and isinstance(nd.func, ast.Attribute) and nd.func.attr == 'extend' \
+                    and "['fields']" in u(nd.func.value) and nd.args:
+                v = nd.args[0]
+            if isinstance(nd, ast.Assign) and isinstance(nd.targets[0], ast.Subscript) and _const(nd.targets[0].slice) == 'fields':
+                v = nd.value
+            if v is None:
+                continue
+            for src in ([v] + list(facts.assigns.get(pseudo(v) or '', []))):
+                if isinstance(src, ast.Call):
+                    for t in ctx.res.resolve_call(src):
+                        if isinstance(t, FuncInfo):
+                            for r in own_nodes(t.node):
+                                if isinstance(r, ast.Return) and isinstance(r.value, ast.Name):
+                                    returned_fl.setdefault(t.qualname, set()).add(r.value.id)
+    for f in funcs:
+        facts = Facts(f, include_nested=False)
+        # names holding a schema field list
+        fl = set(returned_fl.get(f.qualname, ()))
+        changed = True
+        while changed:
+            changed = False
+            for nm, vals in facts.assigns.items():
+                if nm in fl:
+                    continue
+                for v in vals:
+                    t = u(v)
+                    if "'fields'" in t and ("['fields']" in t or ".get('fields'" in t or ".setdefault('fields'" in t):
+                        fl.add(nm)
+                        changed = True
+                        break
+            for nd in own_nodes(f.node):
+                if isinstance(nd, ast.Assign) and isinstance(nd.targets[0], ast.Subscript) and _const(nd.targets[0].slice) == 'fields' \
+                        and isinstance(nd.value, ast.Name) and nd.value.id not in fl:
+                    fl.add(nd.value.id)
+                    changed = True
+                if isinstance(nd, ast.Call) and isinstance(nd.func, ast.Attribute) and nd.func.attr == 'extend' \
+                        and (pseudo(nd.func.value) in fl or "['fields']" in u(nd.func.value)) and nd.args \
+                        and isinstance(nd.args[0], ast.Name) and nd.args[0].id not in fl and nd.args[0].id in facts.assigns \
+                        and any(isinstance(v, ast.List) for v in facts.assigns[nd.args[0].id]):
+                    fl.add(nd.args[0].id)
+                    changed = True
+        # descriptor-derived names: anything rooted at the package / a resource descriptor
+        def descr_rooted(expr):
+            roots = facts.roots(expr)
+            for r in roots:
+                for v in facts.values_of(r):
+                    t = u(v)
+                    if "descriptor" in t or "['resources']" in t or "['schema']" in t or ".get('schema'" in t:
+                        return True
+            return bool(roots & {'resource', 'res', 'datapackage', 'dp', 'package', 'source_spec'} & set(f.all_params) | 
+                        {r for r in roots if r in ('package',)})
+        for nd in own_nodes(f.node):
+            if not (isinstance(nd, ast.Call) and isinstance(nd.func, ast.Attribute) and nd.func.attr in ('append', 'extend', 'insert')):
+                continue
+            recv = nd.func.value
+            if not (pseudo(recv) in fl or "['fields']" in u(recv)):
+                continue
+            x = nd.args[-1] if nd.args else None
+            if x is None:
+                continue
+            n += 1
+            cands = [x] if not isinstance(x, ast.Name) else (_reaching_assign(nd, x.id) or facts.assigns.get(x.id) or [x])
+            bad = []
+            for v in cands:
+                if _fresh(ctx, v):
+                    continue
+                if isinstance(v, ast.Name) and v.id in facts.assigns and all(_fresh(ctx, w) for w in facts.assigns[v.id]):
+                    continue
+                if descr_rooted(v):
+                    continue
+                bad.append(v)
+            run.check(not bad, rule, where(ctx.repo, nd), f.qualname, nd,
+                      'the object %s put into the schema fields is neither created for this resource nor deep-copied: every '
+                      'matched resource gets the very same field object (and shares it with the caller\'s argument)'
+                      % ', '.join(u(b) for b in bad))
+    return n
+
+
+def package_phase_functions(ctx):
+    """Package steps, their module-local helpers, and the package-phase methods of processor classes."""
+    funcs = []
+    for fi in package_steps(ctx.repo):
+        for f in _local_funcs(ctx, fi):
+            if f not in funcs:
+                funcs.append(f)
+    mods = {f.module.name for f in funcs}
+    for f in ctx.repo.functions.values():
+        if f.module.name in mods and f not in funcs and not isinstance(f.node, ast.Lambda):
+            funcs.append(f)
+    for c in processor_classes(ctx.repo, ctx.res):
+        for nme in ('process_datapackage', 'safe_process_datapackage'):
+            if nme in c.methods and c.methods[nme] not in funcs:
+                funcs.append(c.methods[nme])
+    return funcs
